@@ -281,7 +281,7 @@ func c09Run(raw json.RawMessage) (res Result, err error) {
 
 	// ---- property oracle on the implementation's outputs.
 	// Part A (what no known finding excuses): the query succeeds; exactly the index-0 rows
-	// are missing; every row untouched by F2/F3 is returned with its quantised time and its payload;
+	// are missing; every row but the index-0 ones is returned with its quantised time and its payload;
 	// those rows appear in time order.  Part B: the full property.  A failure of A is never classified.
 	rl := int(st.Vrl) + 8
 	type rr struct {
@@ -310,7 +310,7 @@ func c09Run(raw json.RawMessage) (res Result, err error) {
 	default:
 		// clean rows: exact match on (quantised time, payload)
 		for _, w := range written {
-			if w.idx0 || w.misf {
+			if w.idx0 {
 				continue
 			}
 			found := false
@@ -345,15 +345,6 @@ func c09Run(raw json.RawMessage) (res Result, err error) {
 				detailB = fmt.Sprintf("returned rows are not in time order at row %d", j)
 			}
 		}
-		for _, w := range written {
-			if detailB != "" {
-				break
-			}
-			if w.misf {
-				detailB = fmt.Sprintf("record written at %s is returned at another time (quantised in its own interval: %s; interval %s, step %d ns)",
-					w.t.Format(time.RFC3339Nano), w.q.UTC().Format(time.RFC3339Nano), in.Tf, step)
-			}
-		}
 	}
 	switch {
 	case detailA != "":
@@ -363,15 +354,13 @@ func c09Run(raw json.RawMessage) (res Result, err error) {
 		switch {
 		case f2:
 			res.Class = "daily-jan1-index0"
-		case f3:
-			res.Class = "cross-year-merge"
 		}
 	}
-	res.InDomain = !f1 && !f2 && !f3 && o.Code == 0
+	res.InDomain = !f1 && !f2 && o.Code == 0
 	res.Nontrivial = res.InDomain && nrows >= 2
 	res.Tags = append(res.Tags, fmt.Sprintf("rows=%d", bucket(nrows)), fmt.Sprintf("years=%d", len(st.Files)),
 		fmt.Sprintf("slots=%d", bucket(o.Slots)), fmt.Sprintf("code=%d", o.Code))
-	for name, b := range map[string]bool{"outside-C10-bound": f1, "F2": f2, "F3": f3, "4H": fourH} {
+	for name, b := range map[string]bool{"outside-C10-bound": f1, "F2": f2, "cross-year-same-index": f3, "4H": fourH} {
 		if b {
 			res.Tags = append(res.Tags, name)
 		}
